@@ -10,6 +10,16 @@ CLAIMED = {
    text='C01_lazy_eq_staged_* are proved for every chain of row-phase machines and every event stream; C01_dispatch_total says no link falls through; regrouping and always-true conditionals are spliced in place. The tie to the code: every kind of link object is pushed through the real Flow and compared with classify; random pipelines run on the real lazy engine are compared with the model staged fold; and the property itself (lazy = step-by-step, regrouping, three APIs) is checked on the real code alone, incl. user callables of every kind and in-place mutators after retaining steps.',
    note='object aliasing is not modelled (probed by mutator scenarios); user callables are sampled from a fixed zoo',
    ref='6/C01'),
+ 'C02': dict(
+   technique='Lean 4 proof (conformance invariant PkgOk preserved by each Layer-A step for every validity predicate, lifted through mapSel and over pipelines of any length) + step correspondence + cell-by-cell validation oracle on real pipelines',
+   text='C02_preserve_* / C02_step_* show that delete/select/add_field/filter/deduplicate/delete_resource/set_primary_key/update_resource/duplicate keep names unique, row keys declared and values valid, for every validity predicate and selector; C02_pipeline lifts this to step lists of any length. Real well-typed pipelines over all built-in processor families (join with every aggregator and mode, concatenate, unpivot, computed fields, set_type, sort, iterables ...) are grown step by step and after each the real result is validated cell by cell with Field.cast_value, for alignment, unique names, declared keys and Data Package validity.',
+   note='validity = what Field.cast_value accepts (parameter); join / concatenate / unpivot / rename preservation is checked by the oracle and correspondence, not proved; a full-outer join keyed by the row number is a listed finding',
+   ref='6/C02'),
+ 'C03': dict(
+   technique='Lean 4 proof (record round trip under per-type codec assumptions; JSON rows read by key in any key order; null cell; boolean / temporal / year codecs concretely; live dialect table by decide) + real dump->load and independent-decode oracle',
+   text='C03_record_roundtrip and C03_json_keyed_roundtrip hold for every schema order and row; C03_temporal/year/bool_roundtrip for the repository-chosen formats; C03_dialect_table is decided on the serialiser / dialect tables regenerated from the source on every run. Real dumps (10 field types, csv/json, path/zip, add_filehash_to_path, temporal_format_property, several resources, awkward names and values) are read back with load() defaults and, independently, with csv/json plus the recorded dialect only, and compared by typed equality.',
+   note='CPython csv/json/strftime, tabulator and tableschema casts are parameters (differential-tested); positional reading of sorted JSON keys (load of json dumps with non-alphabetical schema order) and CR LF normalisation are listed findings; JSON numbers to double precision',
+   ref='6/C03'),
  'C04': dict(
    technique='Lean 4 proof (exception funnel: every fault position/class ends in ProcessorError with the original cause; no commit effect after a failure) + fault correspondence + fault matrix on real code',
    text='C04_propagates_* / C04_never_ok are proved for every chain length, fault position, phase and exception class over the model of _process/safe_process; C04_no_commit_after_failure for every pair of machines whose commits are epilogue effects. The model is tied to the code by the fault correspondence; the property is checked on the real code over a fault matrix (kind x class x position x API) with observers placed after the fault, poisoned rows for built-ins, and upstream failures reaching parallelize in a subprocess under a time limit.',
